@@ -139,6 +139,9 @@ func swarmKnobs(t *Tape) Knobs {
 		}
 	}
 	k.LegacyRevocationHandler = t.Chance(12)
+	if k.JWTAccess && t.Chance(40) {
+		k.JWTScopeField = t.Range(1, 3)
+	}
 	if t.Chance(12) {
 		enableCustomMode(t, &k) // extension points: a custom response mode (some clients are registered for it) ...
 	}
